@@ -11,10 +11,10 @@ PROPS = {
         "trusted": COMMON_TRUSTED,
         "assumptions": [],
         "clauses_not_decided": [
-            "reply built by DhtNetworkManager::find_closest_nodes_local / handle_lookup_request (async, needs live transport)",
+            "DhtNetworkManager::find_closest_nodes_local is verified await-erased for the clauses 'each peer once, under a single identifier' and 'at most count'; that its answer is the CLOSEST min(count, known) peers rests on the assumed contract of its outlined sort/take tail and on DhtCoreEngine::find_nodes (opaque here) -- exercised by the native search verif_search_c02_local only; handle_lookup_request (which forwards that answer) is not extracted",
             "DhtCoreEngine::handle_request is verified in its await-erased form (both awaits are tokio RwLock acquisitions: data store, routing table; the guarded objects became parameters): sequential semantics under the two guards, no interleaving between them is explored",
         ],
-        "explanation": "Contracts on DhtKey::distance, KBucket::{new, add_node, remove_node, get_nodes}, KademliaRoutingTable::{new, get_bucket_index, get_bucket_index_for_key, add_node, remove_node, find_closest_nodes}; the reply built by DhtCoreEngine::handle_request (await-erased) for FindNode is exactly find_closest_nodes(target, min(count, 20)) and never names more than 20 nodes, for FindValue it names at most K = 8 closest entries (none when the value is held); DataStore::{put, get} verified on the real field layout; DhtNetworkManager::{compare_node_distance, filter_response_nodes}.",
+        "explanation": "Contracts on DhtKey::distance, KBucket::{new, add_node, remove_node, get_nodes}, KademliaRoutingTable::{new, get_bucket_index, get_bucket_index_for_key, add_node, remove_node, find_closest_nodes}; the reply built by DhtCoreEngine::handle_request (await-erased) for FindNode is exactly find_closest_nodes(target, min(count, 20)) and never names more than 20 nodes, for FindValue it names at most K = 8 closest entries (none when the value is held); DataStore::{put, get} verified on the real field layout; DhtNetworkManager::{compare_node_distance, filter_response_nodes, find_closest_nodes_local}: the local answer over routing table plus connected peers names each peer once (duplicate filter on the DHT key) and never more than count.",
         "jobs": {"quick": 6, "thorough": 6},
     },
     "C04": {
@@ -166,13 +166,13 @@ PROPS = {
         ],
         "assumptions": [
             "GeographicLocation::distance_km is a deterministic, symmetric function of its two arguments (haversine over f64 trigonometry, uninterpreted): 'no two closer than 50 km' is a statement about the distance this function measures",
-            "WeightedSampler::sample_nodes returns k names taken from the candidates or an error: ASSUMED in the Verus unit (map-with-early-return collected into a Result + sort_by are outside the dialect), its text is pinned by hash and exercised by the native search only; the bounded Kani harnesses written for it (<= 4 candidates) did not finish within 900 s and are parked",
+            "WeightedSampler::sample_nodes is verified on its own text (closure with early return verified in place); ASSUMED behind shims: `iter().map(f).collect::<Result<Vec<_>, _>>()` maps every element in order or returns the first error, sort_by is a permutation, `into_iter().take(k).map().collect()` keeps the first min(k, len) entries; fastrand::f64 and f64::powf are arbitrary values. NOT proved: that the k names come from pairwise different positions (drawing without replacement) -- exercised by the native search only; select_nodes does not depend on it (it draws one name per round and removes it from the remaining set)",
             "await erasure of select_nodes: its only .await is the call of the strategy's own calculate_weights, an async fn without awaits that is verified in the same unit; sequential semantics",
             "std contracts behind shims: HashMap / HashSet (vstd; key model assumed for NodeId, NetworkRegion), `*map.entry(k).or_insert(0) += 1`, sort_by is a permutation, into_iter().map().collect() keeps order, first(), ok_or / ok_or_else",
         ],
         "clauses_not_decided": [
             "'over many draws favours heavier candidates' (statistical statement; no contract can state it)",
-            "'never a panic for zero, negative, infinite or NaN scores': decided for calculate_weight only (Kani, complete over all f64); sample_nodes is not decided; Verus checks arithmetic overflow / index bounds of the extracted text but not panics inside the assumed callees",
+            "'never a panic for zero, negative, infinite or NaN scores': decided for calculate_weight only (Kani, complete over all f64); inside sample_nodes the comparator's unwrap_or and the guards are verified panic-free by Verus on the extracted text, the std sort_by itself is not; Verus checks arithmetic overflow / index bounds of the extracted text but not panics inside the assumed callees",
             "the orchestrator (src/placement/orchestrator.rs) and other PlacementStrategy implementations",
         ],
         "explanation": "Verus proves, on the extracted text, for candidate sets, metadata maps and selections of ANY size: DiversityEnforcer::validate_selection accepts only selections in which no two nodes are closer than half the configured distance, no region holds more than max_nodes_per_region and no autonomous system more than max_nodes_per_asn entries (loop invariants over the pair loop and the two tally maps); DiversityEnforcer::new sets 100 km / 2 / 3; calculate_weights names only remaining candidates; select_nodes (await-erased) returns either an error or a decision naming exactly replication_factor nodes, pairwise distinct, all among the supplied candidates, satisfying the three diversity constraints with the metadata the caller supplied. Kani: calculate_weight complete over f64, ReplicationFactor::new complete.",
